@@ -38,6 +38,14 @@ def run(ctx):
         for cfg in ("Progress_t2.cfg", "Progress_t3.cfg"):
             ctx.require_ok(ctx.tlc("Progress", cfg=cfg, workers=8, timeout=3000), cfg)
     ctx.tlc("Progress", cfg="Progress_neg.cfg", workers=4, expect_violation="Termination")
+    # the reporter's bookkeeping for chain counts beyond TLC's reach: Apalache proves IndInv inductive (Init => IndInv,
+    # IndInv /\ Next => IndInv', IndInv => ExitOnlyWhenAllFinal /\ CountOnce /\ bars full while chains wait) on the set
+    # abstraction that Progress!BookAsSets ties to the bar-by-bar bookkeeping; dropping bars is the negative control
+    acfg = "ProgressInd_t.cfg" if thorough else "ProgressInd.cfg"
+    ctx.apalache("ProgressInd", acfg, "Init", "IndInv", 0, timeout=900)
+    ctx.apalache("ProgressInd", acfg, "IndInv", "IndInv", 1, timeout=3000)
+    ctx.apalache("ProgressInd", acfg, "IndInv", "Safety", 0, timeout=900)
+    ctx.apalache("ProgressIndNeg", "ProgressInd.cfg", "IndInv", "IndInv", 1, timeout=900, expect_error=True)
     g = ctx.tlc("Gen_Progress", workers=2, coverage=False)
     ctx.require_ok(g, "Gen_Progress")
     cases = g.tagged("REPLAY")
@@ -99,7 +107,8 @@ def run(ctx):
         okc, _, _ = ctx.validate_trace("Trace_Progress", ctx.write_ndjson("progress_c.ndjson", evs[: j + 1]))
         ctx.selftest("trace: final bookkeeping event with a finished count one too low", not okc)
     ctx.cov["rule"] = ("Progress.tla: all interleavings of N workers and the reporter with receiver crash, liveness under weak fairness (dropping bars "
-                       "instead of recycling them is the negative control); replay: completion schedules of 7 chains over 5 bars, sampler x precision x "
+                       "instead of recycling them is the negative control); ProgressInd.tla: inductive invariant of the bookkeeping proved by Apalache for "
+                       "N = 6 / 3 bars (thorough: N = 10 / 5 bars; measured once for N = 16); replay: completion schedules of 7 chains over 5 bars, sampler x precision x "
                        "chain-count configurations, receiver dropped at every point; non-trivial = cases with more chains than bars / mid-run drops")
     ctx.cov["exhaustive"] = False
 
